@@ -81,7 +81,7 @@ def proj(H, g):
             anom.append(f"ambiguous-{what}-labels")
     j = {"nodes": nodes, "edges": edges, "tail": tail, "head": head, "nout": nout, "nin": nin,
          "nak": nak, "eak": eak, "nattr": nattr, "eattr": eattr, "gattr": gattr,
-         "uid": g.inv_uid(peek_uid(H)) if hasattr(g, "inv_uid") else peek_uid(H), "frozen": bool(H.is_frozen)}
+         "uid": peek_uid(H), "frozen": bool(H.is_frozen)}
     return j, sorted(set(anom))
 
 
